@@ -6,6 +6,7 @@
 //   stage 4: conversion chains through the library's own outputs (B^<=3)
 #define UTF_PROP 1
 #include "utf_harness.h"
+#include <filesystem>
 
 static const uint32_t NB[4] = {0x41, 0xE9, 0x20AC, 0x1F600};  // 1-,2-,3-,4-byte neighbours
 
@@ -21,6 +22,7 @@ static void ctx_seq(unsigned k, uint32_t c, U32V &cps)
 }
 static const unsigned QUICK_CTX[4] = {0, 4, 8, 12};  // alone, [n4,c], [c,n4], [n1,c,n4]
 
+static std::string show_cps(const U32V &cps);
 static void run_all_encodings(Ctx &c, const U32V &cps, const RunOpts &ro)
 {
     U32V units;
@@ -28,6 +30,27 @@ static void run_all_encodings(Ctx &c, const U32V &cps, const RunOpts &ro)
         encode_cps(cps, e, units);
         run_case(c, e, units, ro);
     }
+    if (ro.primary_only) return;
+    // std::filesystem::path routes (well-formed text only, so they live here and not in the shared route table): the path
+    // holds the text in the platform's narrow encoding, every way in and out must reproduce the UTF-8 bytes
+    encode_cps(cps, ref::E8, units);
+    std::string u8(units.begin(), units.end());
+    vf::Outcome oc = vf::guard([&] {
+        ST::string s = ST::string::from_validated(u8.data(), u8.size());
+        std::filesystem::path p = s.to_path();
+        std::u8string back = p.u8string();
+        ST::string viaset("old");
+        viaset.set(p);
+        ST::string viaassign;
+        viaassign = p;
+        VF_ADD("ops", 5);
+        VF_COUNT("validated");
+        auto same = [&](const ST::string &x) { return x.size() == u8.size() && memcmp(x.c_str(), u8.data(), u8.size()) == 0; };
+        if (std::string((const char *)back.data(), back.size()) != u8) c.fail("c01:s_to_path:wrong-units", show_cps(cps) + " : to_path().u8string() differs from the UTF-8 text");
+        if (!same(ST::string::from_path(p)) || !same(ST::string(p)) || !same(viaset) || !same(viaassign))
+            c.fail("c01:path_to_s:wrong-units", show_cps(cps) + " : from_path / constructor / set / assignment from a path differs from the UTF-8 text");
+    });
+    if (!oc.ok()) c.fail(std::string("c01:path-routes:") + vf::outkind_name(oc.kind), show_cps(cps) + " : " + oc.str());
 }
 
 static std::string show_cps(const U32V &cps)
